@@ -339,14 +339,17 @@ class Lowerer:
 
     def _ctype_s(self, q, d=None):
         q = self._strip_cv(q)
-        if q.endswith('&&'): return self._ctype_s(q[:-2], None) + ' *'
-        if q.endswith('&'): return self._ctype_s(q[:-1], None) + ' *'
-        if q.endswith('*'): return self._ctype_s(q[:-1], None) + ' *'
+        dd = self._strip_cv(d) if d else None
+        if q.endswith('&&'): return self._ctype_s(q[:-2], dd[:-2] if dd and dd.endswith('&&') else None) + ' *'
+        if q.endswith('&'): return self._ctype_s(q[:-1], dd[:-1] if dd and dd.endswith('&') and not dd.endswith('&&') else None) + ' *'
+        if q.endswith('*'): return self._ctype_s(q[:-1], dd[:-1] if dd and dd.endswith('*') else None) + ' *'
         m = re.match(r'^(.*)\[(\d*)\]$', q)
         if m:
             return self._ctype_s(m.group(1), None) + ' *'     # arrays only appear decayed (parameters) here
         if q in SUGAR: return SUGAR[q]
         if q in BUILTIN: return BUILTIN[q]
+        m = re.match(r'^__gnu_cxx::__alloc_traits<std::allocator<(.*)>, (.*)>::value_type$', q)
+        if m and m.group(1).strip() == m.group(2).strip(): return self._ctype_s(m.group(2), None)      # libstdc++'s spelling of vector<T>::value_type
         m = re.match(r'^(std::)?initializer_list<(.*)>::(const_)?iterator$', q)
         if m: return self._ctype_s(m.group(2), None) + ' *'
         if q.startswith('std::initializer_list<') or q.startswith('initializer_list<'): return 'struct osmt_ilist'
